@@ -1,9 +1,48 @@
 //! hx_c09: branches, tags and shallow clones are isolated references (property C09).
+//! `hx_c09 c09 --tier quick|thorough --seed N --out DIR`; `hx_c09 probe` reruns the reproductions of the
+//! known findings on the real code (not part of the check).
+mod cleanup;
+mod clone;
+mod e2e;
+mod names;
 mod probe;
 
+use hxlib::util::{Args, Rng, Sink};
+
+fn corpus_dir() -> std::path::PathBuf {
+    std::path::Path::new(env!("CARGO_MANIFEST_DIR")).join("..").join("corpus").join("C09")
+}
+pub fn corpus_names() -> Vec<String> {
+    let p = corpus_dir().join("names.json");
+    let v: serde_json::Value = serde_json::from_str(&std::fs::read_to_string(p).expect("corpus/C09/names.json")).unwrap();
+    v.as_array().unwrap().iter().map(|x| x.as_str().unwrap().to_string()).collect()
+}
+pub fn corpus_cleanup() -> Vec<(String, Vec<String>)> {
+    let p = corpus_dir().join("cleanup.json");
+    let v: serde_json::Value = serde_json::from_str(&std::fs::read_to_string(p).expect("corpus/C09/cleanup.json")).unwrap();
+    v.as_array()
+        .unwrap()
+        .iter()
+        .map(|c| (c["delete"].as_str().unwrap().to_string(), c["remaining"].as_array().unwrap().iter().map(|x| x.as_str().unwrap().to_string()).collect()))
+        .collect()
+}
+
+fn run(args: &Args) -> i32 {
+    let mut sink = Sink::new("C09", &args.out);
+    let mut rng = Rng::new(args.seed);
+    cleanup::run(args, &mut sink, &mut rng);
+    names::run(args, &mut sink, &mut rng);
+    clone::run(args, &mut sink, &mut rng);
+    e2e::run(args, &mut sink, &mut rng);
+    sink.exhaustive = false;
+    sink.finish();
+    0
+}
+
 fn main() {
-    let (sub, args) = hxlib::util::Args::parse();
+    let (sub, args) = Args::parse();
     let code = match sub.as_str() {
+        "c09" => run(&args),
         "probe" => probe::run(&args),
         _ => {
             eprintln!("unknown subcommand {sub}");
